@@ -43,6 +43,34 @@ def aim(rng, row, w, case):
         from vf import gen
         words = [(case['state']['R.PC'] & ~0xFF) + 4 * rng.randrange(0, 0x30) + rng.choice((0, 0, 1, 1, 2, 3)) for _ in range(gen.DATA[1] // 4)]
         case['poke'].append([gen.DATA[0], struct.pack('<%dI' % len(words), *[x & 0xFFFFFFFF for x in words]).hex()])
+        st = case['state']
+        f = row.extract(w)
+        if row.name.startswith(('LDM', 'POP')) and 'drsrs[0]' in st and rng.random() < 0.25:
+            # the word that loads the PC (the highest of the transfer) lies in a one-word no-access MPU region: the Data Abort comes after every other
+            # register was read - the base register must still be what it was, so that the handler can return to the instruction and run it again
+            mode = gen.MODE_NAME[st['cpsr'] & 31]
+            n = 13 if (row.name.startswith('POP') or 'n' not in f) else f['n']
+            if n <= 14:
+                regs = f.get('r', 0) | ((f.get('P', 0) & 1) << 15 if 'P' in f and len(row.fields.get('P', ())) == 1 and not row.name.startswith('LDM_A') else 0)
+                nwords = max(bin(regs).count('1'), 1)
+                base_ = st[gen.bank_key(n, mode)]
+                name = row.name
+                if 'DA' in name:
+                    top = base_
+                elif 'DB' in name:
+                    top = base_ - 4
+                elif 'IB' in name:
+                    top = base_ + 4 * nwords
+                else:
+                    top = base_ + 4 * (nwords - 1)
+                for r_ in range(12):
+                    st['drsrs[%d]' % r_] = 0
+                st['drsrs[0]'], st['drbars[0]'], st['dracrs[0]'] = (31 << 1) | 1, 0, 3 << 8
+                st['drsrs[11]'], st['drbars[11]'], st['dracrs[11]'] = (1 << 1) | 1, top & 0xFFFFFFFC, 0
+                st['mpuir'] = 12 << 8
+                st['sctlr'] = (st['sctlr'] | 1) & ~(1 << 13)
+                if 'vbar' in st:
+                    st['vbar'] = 0
 
 
 def classify(res, case):
